@@ -192,6 +192,11 @@ pub fn gen_replicas(prop: &str, r: &mut Prng, seed: u64, run: u64) -> Scenario {
                 // kinds with zero records
                 cfg.max_recs[r.usize_below(3)] = 0;
             }
+            if prop == "C03" && r.chance(1, 10) {
+                // larger populations: N in the hundreds, terms linked to all records
+                cfg.max_recs[r.usize_below(3)] = r.urange(40, 400);
+                cfg.n_terms = cfg.n_terms.min(20);
+            }
             cfg.rec_no_terms = r.chance(1, 2);
             cfg.names = cfg.names.min(1);
         }
